@@ -1242,9 +1242,13 @@ def run_clear(spec, acc):
                 move_case(h, acc, clock, ck, rng, rnd)
                 for _ in range(3):
                     tie_move_case(h, acc, clock, ck, rng, rnd)
+                same_function_case(h, acc, clock, ck, rng, rnd)
             else:
                 vid[0] += 1
                 tempo_hammer_case(h, acc, rng, vid[0])
+                vid[0] += 1
+                h.watch.reset()
+                etempo_case(h, acc, rng, vid[0])
             if ck == 'TempoClock':
                 clock.stop()
     h.report_lockmon(acc)
@@ -1336,6 +1340,94 @@ def tie_move_case(h, acc, clock, ck, rng, rnd):
             return
         acc.violation(f'C08/{what}/{ck}/moved-task-exact-tie',
                       {'history': hist, 'expected': exp, 'got': got, 'round': rnd})
+
+
+def same_function_case(h, acc, clock, ck, rng, rnd):
+    """One ordinary function object (not a Function / Routine instance)
+    scheduled several times while the earlier schedulings are still pending:
+    every scheduling is its own task - the function is awakened once per
+    scheduling, at each of the times."""
+    calls = []
+
+    def plain_task():
+        calls.append(h.main.elapsed_time())
+    n = rng.randint(2, 4)
+    delays = sorted(rng.sample([0.08, 0.16, 0.24, 0.32, 0.4], n), reverse=rng.random() < 0.5)
+    for d in delays:
+        if ck != 'AppClock' and rng.random() < 0.3:
+            now = clock.elapsed_beats() if ck == 'TempoClock' else h.main.elapsed_time()
+            clock.sched_abs(now + d, plain_task)
+        else:
+            clock.sched(d, plain_task)
+    t_end = time.time() + 3.0
+    while len(calls) < n and time.time() < t_end:
+        time.sleep(0.02)
+    time.sleep(0.2)
+    with h.main._main_lock:
+        got = len(calls)
+    acc.count('same_function_cases')
+    acc.case(h64(('same-fn', ck, tuple(delays))), nontrivial=True)
+    if got != n:
+        if got < n and h.watch.max_oversleep > 0.5:
+            acc.count('late_ignored_starved')
+            return
+        acc.violation(f"C08/{'woken-too-often' if got > n else 'not-woken-in-time'}/{ck}/"
+                      'same-function-scheduled-several-times',
+                      {'delays': delays, 'schedulings': n, 'invocations': got, 'round': rnd})
+
+
+def etempo_case(h, acc, rng, vid):
+    """etempo() (tempo change at the physical present) from a plain thread
+    while a task is pending and the clock sleeps: the beat count continues and
+    the task is awakened when its beat is reached at the new tempo."""
+    clock = h.new_tempo(1.0, vid)
+    time.sleep(rng.choice([0.3, 0.6]))          # the clock has run for a while
+    woke = []
+    from sc3.base.functions import Function
+
+    def f():
+        woke.append((h.main.elapsed_time(), clock.elapsed_beats()))
+    b_sched = clock.elapsed_beats()
+    ahead = 0.5
+    clock.sched_abs(b_sched + ahead, Function(f))
+    time.sleep(0.05)
+    new_tempo = rng.choice([2.0, 4.0])
+    b0 = clock.elapsed_beats()
+    t0 = h.main.elapsed_time()
+    clock.etempo(new_tempo)
+    t1 = h.main.elapsed_time()
+    b1 = clock.elapsed_beats()
+    acc.count('etempo_cases')
+    acc.case(h64(('etempo', vid)), nontrivial=True)
+    # continuity: between the two readings at most (t1 - t0) * max tempo beats
+    if not (b0 - 1e-9 <= b1 <= b0 + (t1 - t0) * max(1.0, new_tempo) + 1e-6):
+        acc.violation('C08/beats-not-continuous-across-etempo/TempoClock',
+                      {'beats_before': b0, 'beats_after': b1, 'seconds_between': t1 - t0,
+                       'new_tempo': new_tempo})
+        clock.stop()
+        return
+    due = t1 + max(0.0, (b_sched + ahead) - b1) / new_tempo
+    t_end = time.time() + 4.0
+    while not woke and time.time() < t_end:
+        time.sleep(0.02)
+    if not woke:
+        if h.watch.max_oversleep > 0.5:
+            acc.count('late_ignored_starved')
+        else:
+            acc.violation('C08/not-woken-in-time/TempoClock/after-etempo',
+                          {'scheduled_beat': b_sched + ahead, 'beats_at_etempo': b1,
+                           'new_tempo': new_tempo})
+    else:
+        late = woke[0][0] - due
+        acc.maxi('max_lateness_after_etempo_s', late)
+        if woke[0][1] < b_sched + ahead - 1e-9:
+            acc.violation('C08/early-wakeup/TempoClock', {'after': 'etempo', 'woke': woke[0],
+                                                          'scheduled_beat': b_sched + ahead})
+        elif late > 0.6 and not h.watch.max_oversleep > 0.25:
+            acc.violation('C08/late-wakeup/TempoClock/after-etempo',
+                          {'late_s': late, 'scheduled_beat': b_sched + ahead,
+                           'beats_at_etempo': b1, 'new_tempo': new_tempo})
+    clock.stop()
 
 
 def tempo_hammer_case(h, acc, rng, vid):
